@@ -19,7 +19,6 @@ Variable F : key -> N -> list value -> list N -> N -> N.
 Variable rank : key -> nat.
 Hypothesis Hrank : wf_rank rules rank.
 Hypothesis Hdisc : forall k, r_disc (rules k) = [].
-Hypothesis Hsingle : forall k, r_single (rules k) = [].
 Notation cvK := (cvK rules env F rank).
 Notation bkK := (bkK rules env F rank).
 Notation n1 := (n1 rules).
@@ -217,8 +216,8 @@ Proof.
            rewrite (Hnth i Hi). pose proof (Hne Hb' i a b Hbr Hlt) as Hns. apply Nat.eqb_neq in Hns. fold slot in Hns. rewrite Hns. now apply (K4 Hb' i a b).
         -- intros v. rewrite D6. apply K5.
         -- rewrite D10. unfold stored. rewrite HR. apply K6.
-        -- intros i z Hi Hz. rewrite Hdeps. rewrite Hlen' in Hi. destruct (Nat.lt_ge_cases i (length sl)) as [Hi1|Hi1].
-           ++ destruct (K7 i z Hi1 Hz) as [(y & Hy1 & Hy2)|Hr]; [left; exists y; split; [now apply HU1|auto]|now right].
+        -- intros i z Hu0 Hi Hz. rewrite Hdeps. rewrite Hlen' in Hi. destruct (Nat.lt_ge_cases i (length sl)) as [Hi1|Hi1].
+           ++ destruct (K7 i z Hu0 Hi1 Hz) as [(y & Hy1 & Hy2)|Hr]; [left; exists y; split; [now apply HU1|auto]|now right].
            ++ assert (Hj : exists w, nth_error ks (i - length sl) = Some w).
               { destruct (nth_error ks (i - length sl)) eqn:E; [eauto|]. apply nth_error_None in E. lia. }
               destruct Hj as (w & Hw). left. exists (mkIReq (Some t) (length sl + (i - length sl)) w false false). cbn [iq_task iq_order iq_slot].
@@ -234,7 +233,7 @@ Proof.
         -- exact J4.
         -- exact J5.
         -- rewrite D10. unfold stored. rewrite HR. exact J6.
-        -- intros i z Hi Hz. rewrite Hdeps. destruct (J7 i z Hi Hz) as [(w & Hw1 & Hw2)|Hr]; [left; exists w; split; [now apply HU1|auto]|now right].
+        -- intros i z Hu0 Hi Hz. rewrite Hdeps. destruct (J7 i z Hu0 Hi Hz) as [(w & Hw1 & Hw2)|Hr]; [left; exists w; split; [now apply HU1|auto]|now right].
         -- intros d Hd. rewrite Hdeps in Hd. apply Hdc, J8, Hd.
         -- intros d. rewrite Hdeps. apply J9.
         -- exact J10.
@@ -299,7 +298,7 @@ Proof.
       * rewrite E1, E2. exact J4.
       * rewrite E3. exact J5.
       * rewrite Hft. unfold stored. rewrite HR. exact J6.
-      * rewrite E1. intros i w Hi' Hw. rewrite Hdeps. destruct (J7 i w Hi' Hw) as [(r & Hr1 & Hr2)|Hr]; [left; exists r; split; [now apply HU|auto]|now right].
+      * rewrite E1. intros i w Hu0 Hi' Hw. rewrite Hdeps. destruct (J7 i w Hu0 Hi' Hw) as [(r & Hr1 & Hr2)|Hr]; [left; exists r; split; [now apply HU|auto]|now right].
       * intros d Hd. rewrite Hdeps in Hd. destruct (J8 d Hd) as [H|(r & Hr1 & Hr2 & Hr3)]; [left; now apply Hcurk|].
         destruct (O1' r Hr1) as [->|H]; [left; apply Hcurk; now rewrite <- Hr3|right; exists r; auto].
       * intros d. rewrite Hdeps. apply J9.
